@@ -409,9 +409,32 @@ async def _setup(sc, wires, A, B):
             B.attach(cb, KIND[kind] + 'Acceptor')
 
 
+class Hang(Exception):
+    pass
+
+
 def run_impl(sc):
-    """Run one scenario on the implementation.  Returns a dict of observables."""
-    return asyncio.run(_run_impl(sc))
+    """Run one scenario on the implementation.  Returns a dict of observables.  The run
+    is bounded by a step budget (see _run_impl); a handler that never returns is cut by
+    a generous alarm and reported as a hang."""
+    import signal
+
+    def on_alarm(signum, frame):
+        raise Hang()
+    old = None
+    try:
+        old = signal.signal(signal.SIGALRM, on_alarm)
+        signal.alarm(sc.get('alarm_s', 300))
+    except ValueError:          # not in the main thread: no watchdog
+        old = None
+    try:
+        return asyncio.run(_run_impl(sc))
+    except Hang:
+        return {'setup_error': 'a handler did not return within the watchdog time (hang)'}
+    finally:
+        if old is not None:
+            signal.alarm(0)
+            signal.signal(signal.SIGALRM, old)
 
 
 async def _run_impl(sc):
@@ -427,6 +450,10 @@ async def _run_impl(sc):
         await _setup(sc, wires, A, B)
     except SetupFailed as e:
         return {'setup_error': str(e)}
+    except Hang:
+        raise
+    except Exception as e:
+        return {'setup_error': 'exception during channel set-up: ' + type(e).__name__}
     if wires.q['AB'] or wires.q['BA'] or sinks:
         return {'setup_error': 'traffic during set-up'}
     n = len(B.chans)
@@ -462,6 +489,7 @@ async def _run_impl(sc):
         wires.log = log
         s0 = len(sinks)
         delivered = None
+        raised = None
         if op[0] == 'W':
             _, side, idx, size = op
             idx %= n
@@ -471,19 +499,26 @@ async def _run_impl(sc):
             data = pattern(start, size)
             offsets[key] = off + size
             written[key] = written.get(key, b'') + data
-            (A if side == 'A' else B).write(idx, data, start)
+            try:
+                (A if side == 'A' else B).write(idx, data, start)
+            except Exception as e:      # the property allows no failing write
+                raised = type(e).__name__
             op = ['W', side, idx, size]
         else:
             d = op[1]
             if wires.q[d]:
                 cid, payload, meta = wires.q[d].popleft()
                 delivered = tag(d, cid, payload, meta)
-                (B if d == 'AB' else A).deliver(cid, payload)
+                try:
+                    (B if d == 'AB' else A).deliver(cid, payload)
+                except Exception as e:
+                    raised = type(e).__name__
         await settle()
         wires.log = None
         steps.append({
             'op': op,
             'delivered': delivered,
+            'raised': raised,
             'AB': [tag('AB', c, p, m) for c, p, m in log['AB']],
             'BA': [tag('BA', c, p, m) for c, p, m in log['BA']],
             'sinks': sinks[s0:],
@@ -569,6 +604,8 @@ def oracle(sc, res):
             key = (op[1], op[2])
             written[key] = written.get(key, 0) + op[3]
         # a credit packet that reaches the sender's manager gives the sender its credits
+        if st.get('raised'):
+            fail('raised', f"step {k} {op[:3]}: the implementation raised {st['raised']}")
         dl = st['delivered']
         if dl is not None:
             if dl[0] < 0 and dl[1] != 'S':
@@ -628,6 +665,14 @@ def oracle(sc, res):
             if led[(i, d)]['sdus'] != w and not (sc['mode'] == 'foreign' and s == 'A'):
                 fail('wire', f'channel {i} {d}: SDUs on the wire carry {len(led[(i, d)]["sdus"])} bytes, '
                              f'{len(w)} written')
+        # nothing in flight: the sender holds what the receiver has out, and a Bumble receiver keeps
+        # that above its replenish threshold (max // 2) and within what it granted
+        for s, r, d, spec in (('A', 'B', 'AB', sc['spec_b']), ('B', 'A', 'BA', sc['spec_a'])):
+            if not res['exhausted'] and not (sc['mode'] == 'foreign' and r == 'A'):
+                c = led[(i, d)]['credits']
+                if not (spec[2] // 2 < c <= spec[2]):
+                    fail('ledger', f'channel {i} {d}: with nothing in flight the sender holds {c} credits by the '
+                                   f'wire ledger, outside ({spec[2] // 2}, {spec[2]}]')
         for j, s in enumerate('AB'):
             if not res['drain_done'][i][j]:
                 fail('drain', f'channel {i}: drain() on side {s} does not complete when nothing is left in flight')
@@ -787,11 +832,13 @@ BIG_MPSS = [65533]
 CREDITS = [1, 1, 2, 2, 3, 4, 5, 7, 8, 16, 255, 256, 65535]
 
 
-def gen_spec(rng, big):
+def gen_spec(rng, big, quick=False):
     mtu = rng.choice(BIG_MTUS if big and rng.chance(1, 2) else MTUS)
     mps = rng.choice(BIG_MPSS if big and rng.chance(1, 3) else MPSS)
     if big and mtu < 1000 and mps < 1000:
         mtu = rng.choice(BIG_MTUS)
+    if big and quick and mps < 256:
+        mps = rng.choice([256, 2048, 65533])     # thousands of 23-byte frames per SDU: thorough tier only
     return [mtu, mps, rng.choice(CREDITS)]
 
 
@@ -806,14 +853,14 @@ def write_sizes(rng, peer, big):
     return cands
 
 
-def gen_scenario(rng, big=False):
+def gen_scenario(rng, big=False, quick=False):
     sc = {}
     r = rng.below(100)
     sc['mode'] = 'foreign' if r < 40 else 'pair'
     sc['kind'] = 'enh' if rng.chance(1, 2) else 'le'
     sc['count'] = rng.choice([1, 1, 2]) if sc['kind'] == 'enh' else 1
-    sc['spec_a'] = gen_spec(rng, big)
-    sc['spec_b'] = gen_spec(rng, big)
+    sc['spec_a'] = gen_spec(rng, big, quick)
+    sc['spec_b'] = gen_spec(rng, big, quick)
     if sc['mode'] == 'pair':
         sc['crossed'] = rng.chance(1, 3)
     else:
@@ -1008,7 +1055,7 @@ def evaluate(ctx, scs, label):
         exprs.extend(ex)
         exprs.extend(e for _, e in tex)
     ctx.log(f'{label}: {len(scs)} scenarios run on the implementation, {len(exprs)} model runs to evaluate')
-    vals = spread_eval(ctx, exprs)
+    vals = spread_eval(ctx, exprs, 16 if ctx.quick() else 64)
     ctx.log(f'{label}: model evaluated')
     for sc, res, start, cnt, meta, foreign, tex in index:
         check_scenario(ctx, sc, res, vals[start:start + cnt], meta, foreign)
@@ -1096,10 +1143,10 @@ def run(ctx):
                     'the in-memory host shim of the harness stands for Host/Controller/LocalLink (covered by C04-C06)']
     rng = ctx.rng
     scs = load_corpus(ctx)
-    for _ in range(ctx.n(100, 2500)):
+    for _ in range(ctx.n(100, 1500)):
         scs.append(gen_scenario(rng))
-    for _ in range(ctx.n(3, 60)):
-        scs.append(gen_scenario(rng, big=True))
+    for _ in range(ctx.n(3, 40)):
+        scs.append(gen_scenario(rng, big=True, quick=ctx.quick()))
     evaluate(ctx, scs, 'generated')
 
 
